@@ -74,4 +74,12 @@ func registerProps() {
 		Stub:   []string{"peer: byte script derived from a recorded healthy run", "QUIC: SimNet"},
 		Assume: []string{"memory is judged by the Go runtime's TotalAlloc delta of the worker process over the run (limit 64 x bytes received + 48 MiB); a worker process runs one simulation at a time", "mutations are ordinary seeded mutation; the simulator contributes end-of-input semantics, segmentation and hang detection on the fake clock"},
 	})
+	reg(&propDef{
+		ID: "C12", Pkg: "internal/app", Level: "exploration",
+		Quick: 30000, Thorough: 2000000, QuickWall: 4 * time.Minute, ThorWall: 30 * time.Minute,
+		Rule:   "each run = one seeded event script (3-16 events over 1-5 receivers: join, accept (also repeated), leave, rejoin, transfer success/failure, cleanup tick, 11-minute clock jump) for max-receivers 1-3, issued by an event-loop goroutine to the real SnapshotSender while the transfer goroutines it starts run a simulated transfer function; one seeded schedule (random/weighted/PCT/FIFO) over the generated yield points; non-trivial = more than 10 scheduling steps, distinct by decision-log hash",
+		Real:   []string{"internal/app.SnapshotSender: handleEnvelope, handlePeerJoined, handleManifestAccept, handlePeerLeft, maybeStartTransfers, runTransfer, cleanup (instrumented copy of the current working tree)"},
+		Stub:   []string{"transferFn (simulated transfer that ends when the script says so or when its context is cancelled)", "signaling connection (nil: TransferStart/TransferQueued messages are not sent)", "event source (script instead of the WebSocket read loop)"},
+		Assume: []string{"events reach the sender from one event-loop goroutine, as in RunSnapshotSender; concurrency comes from the transfer goroutines"},
+	})
 }
